@@ -32,6 +32,39 @@ func runC16(p *load.Program, r *oblig.Report) {
 	c16Table(p, r)
 	c16Shareable(p, r)
 	c16Framing(p, r)
+	c16NoDecoderLimits(p, r)
+}
+
+// c16NoDecoderLimits: a stream produced by a conforming encoder (the package's own or a reference one) declares
+// window and content sizes chosen by that encoder, not by the size of the data: a decoder configured with a window or
+// memory limit rejects valid streams. No such option is used by the codecs.
+func c16NoDecoderLimits(p *load.Program, r *oblig.Report) {
+	const rule = "C16.R7 decoders accept every valid stream of their format"
+	banned := map[string]bool{"WithDecoderMaxWindow": true, "WithDecoderMaxMemory": true}
+	var hits []string
+	nNew := 0
+	for _, rel := range []string{"compress", "compress/gzip", "compress/snappy", "compress/lz4", "compress/zstd"} {
+		for _, fn := range pkgFuncs(p, rel) {
+			an.EachInstr(fn, func(ins ssa.Instruction) {
+				c, ok := ins.(*ssa.Call)
+				if !ok || c.Call.StaticCallee() == nil {
+					return
+				}
+				sc := c.Call.StaticCallee()
+				if sc.Pkg == nil || !strings.Contains(sc.Pkg.Pkg.Path(), "klauspost/compress/zstd") {
+					return
+				}
+				if an.RefFuncName(sc) == "NewReader" {
+					nNew++
+				}
+				if banned[an.RefFuncName(sc)] {
+					hits = append(hits, an.RefFuncName(sc)+" at "+p.Pos(c.Pos()))
+				}
+			})
+		}
+	}
+	sort.Strings(hits)
+	r.Check(nNew > 0 && len(hits) == 0, rule, "compress/zstd creates its decoders without a window or memory limit", "-", fmt.Sprintf("none of %v (decoder constructions seen: %d)", []string{"WithDecoderMaxMemory", "WithDecoderMaxWindow"}, nNew), strings.Join(hits, "; "))
 }
 
 func pkgFuncs(p *load.Program, rel string) []*ssa.Function {
